@@ -114,3 +114,18 @@ Proof.
   intros H. inversion H. subst o0 d0 st2. clear H.
   destruct Hm as (_ & _ & _ & _ & _ & Hbad). exact (Hbad eq_refl eq_refl eq_refl).
 Qed.
+
+(* the file after a save is a function of the arguments only, never of what the file held before:
+   O_TRUNC makes the write a replacement (a second, smaller dump to the same path leaves no stale tail) *)
+Theorem write_replaces_content {data : Type} (sf : bool) (d : data) (dump_ok : bool) u m (c1 c2 : content data) :
+  write_mapping sf d true dump_ok (mkFs u (Some (m, c1))) = write_mapping sf d true dump_ok (mkFs u (Some (m, c2)))
+  \/ (sf = true /\ dump_ok = false).
+Proof. destruct sf, dump_ok; cbn; auto. Qed.
+
+Theorem saved_content_is_the_dump {data : Type} (sf : bool) (d : data) (open_ok dump_ok : bool) (st : fs data) o st' :
+  write_mapping sf d open_ok dump_ok st = (o, st') -> o = Saved ->
+  exists m, fs_file st' = Some (m, CData d).
+Proof.
+  intros H Ho. pose proof (write_mapping_spec sf d open_ok dump_ok st) as Hm. rewrite H in Hm.
+  destruct Hm as (_ & _ & Hs & _). destruct (Hs Ho) as (m & Hf & _). now exists m.
+Qed.
